@@ -9,6 +9,9 @@ NOTE_COMMON = ("Trusted: go/ssa lowering (x/tools v0.29.0), the symgo executor's
                "in the evidence file (coverage.bounds / coverage.outside_claim) and DESIGN.md. unknown/timeout/unsupported are reported "
                "as INCONCLUSIVE, never as success or violation. ")
 claimed = {
+ 'C12': dict(cat='model_checking', ref='5/C12',
+   text="Real nasConvert/nasType identity conversions (with the real encoding/hex, strconv, math/bits code) are executed on symbolic octets / digit strings and proved equal to references written from TS 24.501 9.11.3.4 / TS 24.008: PLMN both ways, all 2^24 AMF ids both ways and against the GUTI accessors, GUTI wire->text->wire and acceptance of exactly the well-formed texts over all strings of length 0..24, SUCI (IMSI/NAI) rendering and agreement of the MobileIdentity5GS getters, IMEI/IMEISV, 5G-S-TMSI.",
+   note="String lengths are concrete case splits with symbolic characters; SUCI scheme output <= 4 (8) octets."),
  'C14': dict(cat='model_checking', ref='5/C14',
    text="Each helper that interprets UE-supplied IE contents is executed symbolically on every byte string (all octets symbolic) of every length 0..12 (24) - strings for the text-input variants - with the real encoding/hex, strconv and math/bits code; every index, slice and nil site is a solver query (a satisfiable one is replayed natively as a panic) and every loop must terminate within an unwinding limit (a loop still running is replayed natively under a deadline as a hang).",
    note="Decoder-enforced minimum lengths are deliberately not assumed. Seven genuine defects found this way were repaired in /repo (fix: commits listed in known_findings.json)."),
